@@ -820,6 +820,11 @@ func runImpl(c *Case) outcome {
 					env.sinc = f
 				}
 			}
+			if c.BareEval {
+				if _, err := i.EvalWithContext(ctx, "func() {}()"); err != nil {
+					return errStatus(err)
+				}
+			}
 			var fv reflect.Value
 			switch c.Via {
 			case "eval-plain":
